@@ -314,8 +314,12 @@ func (r *Run) Finish() int {
 		fmt.Fprintln(os.Stderr, "evidence marshal:", err)
 		return 2
 	}
-	os.MkdirAll(filepath.Join(Root, "evidence"), 0o755)
-	if err := os.WriteFile(filepath.Join(Root, "evidence", r.Prop+".json"), append(body, '\n'), 0o644); err != nil {
+	evdir := filepath.Join(Root, "evidence")
+	if d := os.Getenv("VERIF_EVIDENCE_DIR"); d != "" {
+		evdir = d // development aid (seeded-change matrix): keep the committed evidence of the real tree intact
+	}
+	os.MkdirAll(evdir, 0o755)
+	if err := os.WriteFile(filepath.Join(evdir, r.Prop+".json"), append(body, '\n'), 0o644); err != nil {
 		fmt.Fprintln(os.Stderr, "evidence write:", err)
 		return 2
 	}
